@@ -37,6 +37,9 @@ PLAN = {
     "C29": dict(quick=10000, thorough=400000, timeout=90),
     "C18": dict(quick=1600, thorough=40000, timeout=240), "C20": dict(quick=400, thorough=20000, timeout=240),
     "C21": dict(quick=320, thorough=30000, timeout=300),
+    # C40 = race-detector batch (C40) + cooperative-scheduler batch of the same programs (C40D)
+    "C40": dict(quick=64, thorough=6000, timeout=180, race=True, gomaxprocs=4, workers=8,
+                extra=[("C40D", dict(quick=240, thorough=30000, timeout=300))]),
     "C22": dict(quick=6000, thorough=300000, timeout=90),
     "C11": dict(quick=1500, thorough=60000, timeout=90),
     "C01": dict(quick=480, thorough=30000, timeout=180), "C02": dict(quick=480, thorough=30000, timeout=180),
@@ -273,7 +276,9 @@ def run_batch(binp, prop, tier, base, total, workers, timeout, gomaxprocs=1, kee
                                   stacks=st[0].get("stacks", "")[-20000:]))
             else:
                 seed = starts[-1] if starts and starts[-1] not in finished else None
-                crashes.append(dict(seed=seed, index=ch.frm + idx_done - 1, rc=rc, log=logtxt[-30000:]))
+                srows = [r for r in rows if "start" in r]
+                ccase = srows[-1].get("case") if srows and seed is not None else None
+                crashes.append(dict(seed=seed, index=ch.frm + idx_done - 1, rc=rc, log=logtxt[-30000:], case=ccase))
             # continue after the failed run
             nfrm = ch.frm + max(idx_done, 1)
             nn = ch.frm + ch.n - nfrm
@@ -345,16 +350,19 @@ def crash_class(log):
                     fr.append(m.split("(")[0].replace("github.com/pion/webrtc/v4.", ""))
                 if len(fr) >= 1 and (m.startswith("Previous") or m.startswith("Goroutine")):
                     break
-            # first frame of each of the two accesses
+            # first pion (non-shim, non-harness) frame of each of the two accesses
             acc = []
             take = False
             for m in lines[i + 1:i + 80]:
                 ms = m.strip()
-                if ms.startswith("Read at") or ms.startswith("Write at") or ms.startswith("Previous"):
+                if ms.startswith("Read at") or ms.startswith("Write at") or ms.startswith("Previous") or ms.startswith("Atomic"):
                     take = True
                     continue
-                if take and ms.startswith("github.com/pion/"):
-                    acc.append(ms.split("(")[0].replace("github.com/pion/webrtc/v4.", ""))
+                if ms.startswith("Goroutine "):
+                    break
+                if take and ms.startswith("github.com/pion/") and ms.endswith(")"):
+                    fn = ms.rsplit("(", 1)[0].replace("github.com/pion/webrtc/v4.", "").replace("github.com/pion/", "")
+                    acc.append(fn)
                     take = False
             frame = " vs ".join(sorted(set(acc))[:2])
             break
@@ -468,15 +476,34 @@ def cmd_check(prop, tier, runs=None, workers=None):
     gmp = plan.get("gomaxprocs", 1)
     budget = plan.get(tier + "_budget_s")
     deadline = t0 + budget if budget else None
+    if plan.get("workers"):
+        workers = max(1, min(workers, plan["workers"]))
     results, crashes, stuck = run_batch(binp, prop, tier, seed, total, workers, plan["timeout"], gomaxprocs=gmp,
                                         deadline=deadline)
+    # further batches of the same property run by another harness id / binary
+    hplan = {prop: (binp, meta, plan)}
+    for hid, sub in plan.get("extra", []):
+        sp = dict(DEFAULT_PLAN)
+        sp.update(sub)
+        b2 = build(bool(sp.get("race")))
+        m2 = metas.get(hid) or describe(b2).get(hid) or die("no harness registered for " + hid)
+        hplan[hid] = (b2, m2, sp)
+        n2 = runs or int(os.environ.get("VERIF_RUNS", "0") or 0) or sp[tier]
+        r2, c2, s2 = run_batch(b2, hid, tier, seed, n2, max(1, min(NCPU, n2)), sp["timeout"], gomaxprocs=sp.get("gomaxprocs", 1),
+                               deadline=deadline)
+        for r in r2 + c2 + s2:
+            r["hid"] = hid
+        results += r2
+        crashes += c2
+        stuck += s2
+        total += n2
     wall_runs = time.time() - t0
 
     # ---- aggregate
     errors = [r for r in results if r["verdict"] == "error"]
     viol = [r for r in results if r["verdict"] == "violation"]
     for c in crashes:
-        viol.append({"verdict": "crash", "seed": c["seed"], "log": c["log"], "index": c["index"], "rc": c["rc"]})
+        viol.append({"verdict": "crash", "seed": c["seed"], "log": c["log"], "index": c["index"], "rc": c["rc"], "hid": c.get("hid"), "case": c.get("case")})
     stats, nontrivial, sigs = {}, set(), set()
     sim_ns = steps = 0
     samples = []
@@ -511,29 +538,31 @@ def cmd_check(prop, tier, runs=None, workers=None):
     for cls, rows in sorted(new.items()):
         row = rows[0]
         case_obj = row.get("case")
-        replay = {"property": prop, "tier": tier, "seed": row.get("seed"), "class": cls, "detail": row.get("detail", ""),
-                  "replay_class": meta.get("replay_class"), "count_in_batch": len(rows), "case": case_obj,
+        hid = row.get("hid") or prop
+        hbin, hmeta, hpl = hplan[hid]
+        replay = {"property": prop, "harness": hid, "tier": tier, "seed": row.get("seed"), "class": cls, "detail": row.get("detail", ""),
+                  "replay_class": hmeta.get("replay_class"), "count_in_batch": len(rows), "case": case_obj,
                   "history": row.get("log")}
         if row["verdict"] == "crash":
             replay["crash_log"] = row.get("log", "")[-20000:]
             if case_obj is None and row.get("index") is not None:
                 # regenerate the case of the crashed run to make the replay self-contained
-                replay["regen"] = {"base": seed, "index": row["index"], "total": total}
+                replay["regen"] = {"base": seed, "index": row["index"], "total": total, "harness": hid}
         if case_obj is not None:
-            exact = meta.get("replay_class") == "exact"
+            exact = hmeta.get("replay_class") == "exact"
             need = 1 if exact else 3
             # confirm in a fresh process
             reps = 1 if exact else 5
             got = 0
             for i in range(reps):
-                rr = run_case(binp, prop, case_obj, plan["timeout"], seed=row.get("seed") or 0, gomaxprocs=gmp)
+                rr = run_case(hbin, hid, case_obj, hpl["timeout"], seed=row.get("seed") or 0, gomaxprocs=hpl.get("gomaxprocs", 1))
                 if same_failure(rr, cls):
                     got += 1
             replay["live_reproduced"] = "%d/%d" % (got, reps)
-            if got == reps and meta.get("shrink"):
-                small, tries = shrink(binp, prop, meta, case_obj, cls, plan["timeout"], need=need,
-                                      budget_s=plan.get("shrink_budget_s", 60), gomaxprocs=gmp)
-                rr = run_case(binp, prop, small, plan["timeout"], seed=row.get("seed") or 0, gomaxprocs=gmp)
+            if got == reps and hmeta.get("shrink"):
+                small, tries = shrink(hbin, hid, hmeta, case_obj, cls, hpl["timeout"], need=need,
+                                      budget_s=hpl.get("shrink_budget_s", 60), gomaxprocs=hpl.get("gomaxprocs", 1))
+                rr = run_case(hbin, hid, small, hpl["timeout"], seed=row.get("seed") or 0, gomaxprocs=hpl.get("gomaxprocs", 1))
                 if same_failure(rr, cls):
                     replay["unminimised_case"] = case_obj
                     replay["case"] = small
@@ -606,10 +635,17 @@ def cmd_check(prop, tier, runs=None, workers=None):
 def cmd_replay(prop, path):
     plan = dict(DEFAULT_PLAN)
     plan.update(PLAN.get(prop, {}))
+    rep = json.load(open(path))
+    prop0 = prop
+    hid = rep.get("harness") or prop
+    if hid != prop:
+        sub = dict(plan.get("extra", [])).get(hid) or die("replay names harness %s, unknown for %s" % (hid, prop))
+        plan = dict(DEFAULT_PLAN)
+        plan.update(sub)
+        prop = hid
     binp = build(bool(plan.get("race")))
     metas = describe(binp)
     meta = metas.get(prop) or die("no harness for " + prop)
-    rep = json.load(open(path))
     case_obj = rep.get("case")
     if case_obj is None:
         die("replay file has no case (crash before the case was recorded); re-run the check with VERIF_SEED")
@@ -625,11 +661,11 @@ def cmd_replay(prop, path):
     if last and last.get("log"):
         print("\n".join(last["log"][:200]))
     if got:
-        known = [k for k in load_known() if k.get("property") == prop and k.get("status") == "open" and known_matches(k, cls)]
+        known = [k for k in load_known() if k.get("property") == prop0 and k.get("status") == "open" and known_matches(k, cls)]
         if known:
-            print("KNOWN-FINDING: property=%s %s" % (prop, known[0].get("description", "")))
+            print("KNOWN-FINDING: property=%s %s" % (prop0, known[0].get("description", "")))
             return 0
-        print("VIOLATION property=%s replay=%s" % (prop, path))
+        print("VIOLATION property=%s replay=%s" % (prop0, path))
         print("  detail:", (last or {}).get("detail", ""))
         return 1
     return 0
